@@ -81,7 +81,7 @@ func runControls(verifDir, repo, id string, baseline map[string]bool) []controlR
 	}
 	defer os.RemoveAll(tmp)
 	results := make([]controlResult, len(ctrls))
-	sem := make(chan struct{}, 4)
+	sem := make(chan struct{}, 8)
 	var wg sync.WaitGroup
 	for i, c := range ctrls {
 		wg.Add(1)
